@@ -368,6 +368,12 @@ theorem runFor_succ (evc : St → R (Bool × St)) (blk post : St → R (Flow × 
     assignTo ev (.sel (.var a) f) v st = (match st.env a with
       | some r => setField f v r >>= fun r' => pure (st.set a r')
       | none => .stuck ("unbound " ++ a)) := rfl
+@[gomini] theorem assignTo_idx_var (ev : Expr → St → R (Val × St)) (a : String) (i : Expr) (v : Val) (st : St) :
+    assignTo ev (.idx (.var a) i) v st = (ev i st >>= fun r =>
+      match r.2.env a, r.1 with
+      | some (.list xs), .int k =>
+        if 0 ≤ k ∧ k.toNat < xs.length then pure (r.2.set a (.list (xs.set k.toNat v))) else .panic
+      | _, _ => .stuck "index assignment") := rfl
 @[gomini] theorem getField_struct (f : String) (fs : List (String × Val)) :
     getField f (.struct fs) = (match lookup f fs with | some v => .ok v | none => .stuck ("no field " ++ f)) := rfl
 @[gomini] theorem getField_nil (f : String) : getField f .nil = .panic := rfl
